@@ -110,7 +110,10 @@ let rec gen (s : schema) (size : int) : val0 =
     let n = coll_len (int_of_n lo) size in
     let l = List.init n (fun _ -> (gen k (size - 2), gen v (size - 2))) in
     let l = dedup_keys k l in
+    (* a Vec-backed map may repeat a key (the library keeps and re-emits it; the Conway rule rejects it: verdict na) *)
+    let l = if ord = KMulti && below 6 = 0 then (match l with (a, b) :: r -> (a, b) :: (a, gen v (size - 2)) :: r | [] -> []) else l in
     let l = match ord with
+      | KMulti -> l
       | KInsertion -> l
       | KBytewise -> List.sort (fun (a, _) (b, _) -> cmp_bytes (enc k a) (enc k b)) l
       | KRewardAddr -> List.sort (fun (a, _) (b, _) -> cmp_bytes (reward_sort_key (enc k a)) (reward_sort_key (enc k b))) l in
@@ -134,12 +137,23 @@ let rec gen (s : schema) (size : int) : val0 =
     let id = int_of_n id in
     if id = 1 then VBytes (gen_address ())
     else if id = 2 then VBytes (gen_reward_address ())
+    else if id = 6 then VBytes (n_of_int (1 + below 255) :: gen_bytes (match below 4 with 0 -> 8 | 1 -> 63 | 2 -> 64 + below 3 | _ -> 8 + below 120))
+    else if id = 7 then (match gen s' size with
+        | VList (_ :: rest) -> VList (VNat (n_of_bz (if below 3 = 0 then BZ.of_int 128 else BZ.add (BZ.of_int 128) (BZ.shift_right (bz_u64 ()) (1 + below 63)))) :: rest)
+        | v -> v)
     else begin
+      (* rejection sampling into the writer image (Coq predicate writer_form) *)
       let v = ref (gen s' size) in
       let tries = ref 0 in
-      while not (writer_form (n_of_int id) !v) && !tries < 50 do v := gen s' (max size 1); incr tries done;
-      !v
+      while not (writer_form (n_of_int id) !v) && !tries < 50 do v := gen s' (max size 2 + !tries / 10); incr tries done;
+      (* a multi-asset value is only written when some policy has an asset: make one if sampling found none *)
+      if id = 5 && not (writer_form (n_of_int id) !v) then
+        VList [VNat (n_of_bz (gen_uint 64)); VMap [(VBytes (gen_bytes 28), VMap [(VBytes (gen_bytes (below 33)), VNat (n_of_bz (gen_uint 64)))])]]
+      else !v
     end
+  | SArrOpt (fs, o) ->
+    let l = List.map (fun f -> gen f (size - 1)) (slist_to_list fs) in
+    if below 2 = 0 then VAlt (nat_of_int 0, VList l) else VAlt (nat_of_int 1, VList (gen o (size - 1) :: l))
   | SBBytes -> let len = (match below 8 with 0 -> 0 | 1 -> 1 | 2 -> 63 | 3 -> 64 | 4 -> 65 | 5 -> 128 | 6 -> 129 + below 100 | _ -> below 64) in
     VBytes (gen_bytes len)
 and dedup s' l =
